@@ -264,6 +264,8 @@ also("C10", "(R-REVERSE-COPY) in Stack.Slice the copy out[A] = list[B] keeps A +
 also("C10", "(R-DETACH-OLD-LINKS) in ring.Pop the receiver's links are read before they are overwritten (directly or through a link helper).")
 also("C13", "(R-DROP-ONE) an edit list re-sliced onto itself loses exactly one edit; (R-OVERLAP-CONSUMED) where a chunk's range is moved by the overlap, every path of that iteration cuts a span by that amount or drops an edit; (R-STALE-READ c) a pointer to an end of an edit list taken before that end is dropped is not consulted for its opcode or written through afterwards, in any later block, unless taken afresh; (R-GUARD-SUBJECT) the block that attaches found context is entered whenever that context is not empty (not 'more than one line').")
 also("C14", "(R-HANDOVER-RESET) an accumulator field of a reader (one that grows by append) handed over to a result inside a loop is emptied before the loop can hand it over again; (R-SPAN-SIBLING) a short-form test in which the range cancels out (start − start) is still compared with the sibling's.")
+also("C09", "The `defer c.lock()()` idiom is read by the helper's body: a method that locks the receiver's mutex, does nothing else and returns its bound Unlock; its call is the Lock, the deferred call of its result the deferred Unlock.")
+also("C14", "The unified format's writer and reader tables (opcode -> prefix/field, marker byte -> opcode/offset) are read off the control-flow graph as well as off switch statements (if-chains, disjunctions, early continues).")
 also("C13", "(R-BOUND-SIDE) where two sibling fields are indexed in one block and one index is tested against 0, the other is too.")
 also("C18", "A count handed to an unexported helper that answers at once for count 0 is zero only for an empty collection (len(x) or min(len(x), k), never len(x) - k).")
 also("C20", "(R-TRUNC-PREFIX) Trunc backs up only when it cuts; (R-CMP-RANGE) comparison helpers chosen among named functions are followed. (R-CMP-CHAIN) in CompareNatural's scope a comparison result returned under a test of itself is returned for both signs.")
